@@ -178,7 +178,7 @@ for k in ['C03', 'C04', 'C05', 'C06', 'C07', 'C08', 'C13', 'C15', 'C16', 'C18', 
 PROPS['C09']['builds'] = [('rel', 3.0, 5.0)]
 # third session: the thorough tier of the checks that used to finish within a minute runs 2-3x more random cases
 for k, t in {'C03': 12.0, 'C04': 12.0, 'C05': 12.0, 'C06': 12.0, 'C08': 12.0, 'C15': 12.0, 'C07': 10.0, 'C16': 10.0, 'C13': 8.0, 'C18': 8.0, 'C19': 6.0}.items():
-    PROPS[k]['builds'] = [('rel', 4.0, t)]
+    PROPS[k]['builds'] = [('rel', 10.0, t)]   # quick tier: 2.5x the cases of the first two sessions (each still finishes within ~15 s)
 for k in ['C02', 'C14']:
     PROPS[k]['builds'] = [('rel', 5.0, 8.0)]
 PROPS['C20']['builds'] = [('rel', 3.0, 2.5)]
